@@ -403,8 +403,8 @@ def init_download_step(sized, force):
 def jobs(tier):
     out = []
     q = tier == "quick"
-    lens = list(range(0, 17)) + [20, 21, 22, 27, 28, 29, 35, 64] if q else list(range(0, 65)) + [100, 888, 889, 890, 1000]
-    allchunk_max = 10 if q else 13
+    lens = list(range(0, 17)) + [20, 21, 22, 27, 28, 29, 35, 64] if q else list(range(0, 101)) + [888, 889, 890, 1000, 5000, 10000]
+    allchunk_max = 10 if q else 14
     for n in lens:
         for mode in ("api", "api_force"):
             out.append(dict(func="download", params=dict(n=n, mode=mode), weight=n + 1))
@@ -415,15 +415,19 @@ def jobs(tier):
                 for ch in ("1", "3", "7", "8", "9"):
                     if n > 100 and ch in ("1", "3"):
                         continue
+                    if n > 1000 and ch != "7":
+                        continue
                     out.append(dict(func="download", params=dict(n=n, mode=mode, chunking=ch), weight=n))
         for kind in ("bufc", "bufp"):
             for sized in ("size", "nosize"):
                 for ch in (("all",) if n <= 6 else ("5", "7", "9", "buf3")):
                     if n > 100 and ch in ("buf3",):
                         continue
+                    if n > 1000 and ch != "9":
+                        continue
                     out.append(dict(func="download", params=dict(n=n, mode="%s_%s" % (kind, sized), chunking=ch),
                                     weight=n + 2 ** min(n, 6)))
-        if n <= (5 if q else 7):
+        if n <= (5 if q else 8):
             for sized in (("nosize",) if 1 <= n <= 4 else ("size", "nosize")):
                 out.append(dict(func="download", params=dict(n=n, mode="bufn_%s" % sized, chunking="all"),
                                 weight=4 ** n))
@@ -436,7 +440,7 @@ def jobs(tier):
     out.append(dict(func="download", params=dict(n=3, mode="api", chunking="7", n2=9, mode2="raw_nosize")))
 
     # uploads
-    ulens = list(range(0, 17)) + [20, 21, 22, 28, 64] if q else list(range(0, 65)) + [100, 889, 1000]
+    ulens = list(range(0, 17)) + [20, 21, 22, 28, 64] if q else list(range(0, 101)) + [889, 1000, 5000, 10000]
     for n in ulens:
         styles = []
         if 1 <= n <= 4:
@@ -494,9 +498,10 @@ META = dict(
                       "chunk sizes 1,3,7,8,9 above; buffered writers (C, _pyio exact; nondeterministic for n<=5); "
                       "back-to-back pairs over 7 length classes; upload lengths 0..16,20,21,22,28,64 x all legal "
                       "response styles x 8 reading modes x 8 OD variants; steps: write len 0..9, symbolic size/pos/toggle",
-                thorough="every length 0..64 plus 100, 888..890, 1000; all chunkings for n<=11; nondeterministic buffer n<=7"),
+                thorough="every length 0..100 plus 888..890, 1000, 5000, 10000; all chunkings for n<=14; nondeterministic "
+                         "buffer n<=8"),
     outside_bounds=["text mode", "a caller that lies about size", "an expedited raw stream fed less than size bytes per "
-                    "write()", "a raw caller ignoring write()'s return value", "payloads > 1000 bytes end-to-end (covered "
+                    "write()", "a raw caller ignoring write()'s return value", "payloads > 10000 bytes end-to-end (covered "
                     "by the step harness)", "buffered reads with a buffer smaller than one segment (known finding)"],
     assumptions=["reference server written from CiA 301 7.2.4.3", "responses delivered inside send_message (deferred "
                  "delivery is exercised in C03/C07)"],
